@@ -126,6 +126,7 @@ Tick(ph) == IF ph = "" \/ SubSeq(ph, 1, 1) = "'" THEN ph ELSE "'" \o ph \o "'"
 StripEv(ev) == [ev EXCEPT !.poly = FALSE, !.meaning = Tick(ev.meaning), !.data = StripPs(ev.data),
                            !.hasdata = (ev.data # <<>>)]       \* ( ) around no parameter is not recorded
 ClassWord(w) == IF w = "assigner" THEN "class" ELSE w
+NoWhere == [t |-> "bool", v |-> "true"]
 RECURSIVE StripS(_), StripB(_)
 StripB(b) == LET q == SelectSeq(b, LAMBDA x : x.t # "empty") IN [i \in DOMAIN q |-> StripS(q[i])]
 StripS(s) ==
@@ -137,10 +138,12 @@ StripS(s) ==
                                  !.els = StripB(s.els)]
       [] s.t = "while" -> [s EXCEPT !.c = Strip(s.c), !.b = StripB(s.b)]
       [] s.t = "for" -> [s EXCEPT !.b = StripB(s.b)]
-      [] s.t = "select_from" -> IF s.haswhere THEN [s EXCEPT !.w = Strip(s.w)] ELSE s
+      \* (without a where clause the field w is a placeholder)
+      [] s.t = "select_from" -> IF s.haswhere THEN [s EXCEPT !.w = Strip(s.w)] ELSE [s EXCEPT !.w = NoWhere]
       [] s.t = "select_related" ->
             LET ch == [i \in DOMAIN s.chain |-> [s.chain[i] EXCEPT !.ph = Tick(s.chain[i].ph)]]
-            IN IF s.haswhere THEN [s EXCEPT !.h = Strip(s.h), !.w = Strip(s.w), !.chain = ch] ELSE [s EXCEPT !.h = Strip(s.h), !.chain = ch]
+            IN IF s.haswhere THEN [s EXCEPT !.h = Strip(s.h), !.w = Strip(s.w), !.chain = ch]
+               ELSE [s EXCEPT !.h = Strip(s.h), !.chain = ch, !.w = NoWhere]
       [] s.t \in {"relate", "unrelate"} -> [s EXCEPT !.ph = Tick(s.ph)]
       [] s.t \in {"gen_class", "create_ev_class"} -> [s EXCEPT !.ev = StripEv(s.ev), !.word = ClassWord(s.word)]
       [] s.t \in {"gen_inst", "create_ev_inst"} -> [s EXCEPT !.ev = StripEv(s.ev), !.to = Strip(s.to)]
